@@ -27,7 +27,7 @@ def cases(res):
     for hl, ns in ((3, [0, 1, 2, 7, 8, 9, 10, 16, 17, 18]), (4, [1, 3, 15, 16, 17, 18, 33]), (2, [1, 4, 5, 6, 9]),
                    (5, [2, 31, 32, 33, 34]), (1, [3, 4]), (0, [1, 5])):
         for n in (ns if not quick else ns[::2] + ns[-1:]):
-            add(n, {"hierarchical_levels": hl, "recon_enabled": rng.choice([0, 1])},
+            add(n, {"hierarchical_levels": hl, "recon_enabled": rng.choice([0, 1]), "intra_period_length": -1},
                 ["--pts", rng.choice(["seq", "x3", "big", "dup", "dec"]), "--policy", rng.choice(["each", "each", "every:3", "random:%d" % rng.randrange(99)])])
     # intra period / refresh type / look-ahead / overlays / tpl
     for ip, rt in ((0, 2), (1, 2), (3, 1), (7, 2), (8, 1), (15, 2), (16, 1), (-1, 1)):
@@ -47,7 +47,7 @@ def cases(res):
                 ["--policy", "random:%d" % rng.randrange(999), "--pts", "big"])
         for hl in (2, 3, 4, 5):
             for n in range(1, 2 ** hl + 3):
-                add(n, {"hierarchical_levels": hl, "recon_enabled": n % 2})
+                add(n, {"hierarchical_levels": hl, "recon_enabled": n % 2, "intra_period_length": -1})
         add(600, {"hierarchical_levels": 4, "recon_enabled": 1, "intra_period_length": 47})
     return out
 
@@ -74,6 +74,9 @@ def run(res):
         b.add("Session", stream.session_events(r), r["desc"])
         be, errs, pk = stream.bitstream_events(r, n_expected=n, expect={"hdrdig": ""})   # API header clause: C02
         b.add("Bitstream", be, r["desc"])
+        st = r["case"]["sets"]
+        if st.get("intra_period_length") == -1 and not st.get("enable_overlays") and n <= 80 and "--pts dec" not in r["desc"]:
+            b.add("PacketizeTrace", stream.packetize_events(r, pk), r["desc"])      # binds the GOP/TU design model
         if r["dec"] is not None and n > 0:
             recon_on = int(r["case"]["sets"].get("recon_enabled", 0))
             oe = stream.observe_events(r["desc"], r, r["dec"], packets=False, recon=bool(recon_on))
@@ -93,6 +96,7 @@ def run(res):
     b.validate(res, "Session", "C03 API protocol", key_fn=ses_key)
     b.validate(res, "Bitstream", "C03 reader side")
     b.validate(res, "Observe", "C03 decoded pictures")
+    b.validate(res, "PacketizeTrace", "C03 temporal-unit structure vs. Packetize.tla")
     corpus.cleanup(rs)
 
 
